@@ -72,7 +72,7 @@ fn configs(tier: Tier) -> Vec<Config> {
             last: vec![l(7), l(0), l(1), l(1), l(1)],
         },
     ];
-    if tier == Tier::Thorough {
+    {
         v.push(Config {
             name: "iv: two clocks, four one-bit inputs, wide input as clock, two outputs",
             sigs: vec![
@@ -89,6 +89,26 @@ fn configs(tier: Tier) -> Vec<Config> {
             bits_pairs: vec![0, 2],
             answer: vec![("R".into(), V::Num(9)), ("Q".into(), V::Num(5))],
             last: vec![l(1), l(0), l(1), l(0), l(2), l(7), l(9)],
+        });
+    }
+    if tier == Tier::Thorough {
+        v.push(Config {
+            name: "v: five one-bit inputs (up to 5 X: 32 assignments), wide input, two outputs, permuted signal list",
+            sigs: vec![
+                Sig::out("Q", 4),
+                Sig::inp("E", 1, 1),
+                Sig::inp("C2", 1, 0),
+                Sig::inp("W", 4, 3),
+                Sig::inp("A", 1, 0),
+                Sig::out("R", 4),
+                Sig::inp("B", 1, 0),
+                Sig::inp("C1", 1, 0),
+            ],
+            header: vec!["C1", "C2", "A", "B", "E", "W", "Q", "R"],
+            menus: vec![one_bit_in(), one_bit_in(), one_bit_in(), one_bit_in(), one_bit_in(), wide_in(), exp(), exp()],
+            bits_pairs: vec![1, 3],
+            answer: vec![("Q".into(), V::Num(5)), ("R".into(), V::Num(9))],
+            last: vec![l(1), l(0), l(1), l(0), l(1), l(2), l(7), l(9)],
         });
     }
     v
@@ -147,7 +167,7 @@ pub fn run(tier: Tier, seed: u64) -> i32 {
                 let text = text(&prog);
                 let lines = lines(&prog);
                 let rl = row_lines(&lines);
-                let r = ref_run_fuel(&prog, &cfg.sigs, &script, 4000, 400);
+                let r = ref_run_fuel(&prog, &cfg.sigs, &script, 8000, 1000);
                 st.evals += 1;
                 if r.end == RefEnd::Fuel {
                     st.out_of_scope += 1;
